@@ -51,9 +51,10 @@ def c02(ctx, t0):
     if want(ctx, 'mutants'):
         res.append(ctx.run_child('mutants', [hx, 'c02'], T(ctx, 400, 3000)))
     if want(ctx, 'agent'):
+        ctx.build_agent()
         res.append(ovl_stage(ctx, 'agent', 'TestVerifC02Agent', T(ctx, 300, 900)))
     floors = {'must_accept_cases': (counters(res, 'must_accept_cases'), 8), 'must_reject_cases': (counters(res, 'must_reject_cases'), 1000),
-              'update_on_unsupported': (counters(res, 'update_on_unsupported'), 300), 'agent_removes_of_unsupported': (counters(res, 'agent_removes_of_unsupported'), 40)}
+              'update_on_unsupported': (counters(res, 'update_on_unsupported'), 300), 'agent_removes_of_unsupported': (counters(res, 'agent_removes_of_unsupported'), 40), 'cli_listings': (counters(res, 'cli_listings'), 2)}
     return finish(ctx, 'exploration', res, COMMON_ASSUME + [
         'sandwich rule: strict-valid => must accept; accept => permissive-valid; in between either answer is correct',
         '"never a hang" is judged by a 30 s then 90 s limit on a deterministic single call whose legitimate cost is < 1 s'], floors, t0)
